@@ -11,6 +11,7 @@ Finding F2 is fixed in /repo: anything matching it again is a VIOLATION.
 import json
 import math
 import os
+from fractions import Fraction as Fr
 from itertools import product
 
 import common as C
@@ -80,6 +81,24 @@ def gen_grids(ctx, count):
         lengths = [l0 if cubic else gen_length(rng, edge_ok) for _ in range(dim)]
         if rng.random() < 0.15 and dim > 1:
             ns = [ns[0]] * dim if prod([ns[0]] * dim) <= 2500 else ns   # equal counts
+        cps = list(ns)
+        u = rng.random()
+        if dim > 1 and u < 0.3:
+            # fewer cells_per_side entries than dimensions: the first entry is reused for the remaining directions
+            # (on cubic and non-cubic boxes, with L[d] < L[0] as well as L[d] > L[0])
+            m = rng.randrange(1, dim)
+            padded = ns[:m] + [ns[0]] * (dim - m)
+            if prod(padded) <= 2500:
+                cps, ns = ns[:m], padded
+                if not cubic and rng.random() < 0.5:
+                    lengths[m:] = [lengths[0] * rng.choice([0.5, 0.25, 0.75, 2.0, 3.0, 1.5]) for _ in range(dim - m)]
+        elif dim > 1 and u < 0.45:
+            # two directions with the same cell side length (as a float) but different lengths and counts
+            f = rng.choice([2, 3, 4])
+            if prod([ns[0], ns[0] * f] + ns[2:]) <= 2500:
+                ns[1] = ns[0] * f
+                lengths[1] = lengths[0] * f
+                cps = list(ns)
         ncell = prod(ns)
         periodic = rng.random() < 0.8
         layers = rng.choice([0, 1, 1, 2]) if ncell <= 200 else rng.choice([0, 1])
@@ -90,9 +109,21 @@ def gen_grids(ctx, count):
         # all-pairs tables cost N^2 numbers in the Coq case files: in the thorough tier only the grids generated for
         # the index relations (every third) go up to 200 cells, the others up to 30 cells
         pair_limit = 200 if (ctx.quick() or torus_focus) else 30
-        grids.append({"lengths": [f2b(x) for x in lengths], "ns": ns, "layers": layers, "periodic": periodic,
-                      "torus": ncell <= pair_limit and in_torus_domain, "seed": rng.randrange(2 ** 31), "nrand": 20,
-                      "with_L": rng.random() < 0.3})
+        grids.append({"lengths": [f2b(x) for x in lengths], "ns": ns, "cps": cps, "layers": layers,
+                      "periodic": periodic, "torus": ncell <= pair_limit and in_torus_domain,
+                      "seed": rng.randrange(2 ** 31), "nrand": 20, "with_L": rng.random() < 0.3})
+        if rng.random() < 0.15 and prod([2 * x for x in ns]) <= 2500 and all(x <= 2.0 ** 999 for x in lengths):
+            # sibling system built right after it in the same driver process: same cell side lengths (as floats),
+            # doubled box lengths and counts -- state leaking between instances or directions shows up here
+            g2 = dict(grids[-1])
+            g2["lengths"] = [f2b(2.0 * x) for x in lengths]
+            g2["ns"] = [2 * x for x in ns]
+            g2["cps"] = [2 * x for x in cps]
+            g2["torus"] = prod(g2["ns"]) <= pair_limit and in_torus_domain
+            g2["seed"] = rng.randrange(2 ** 31)
+            grids.append(g2)
+            if rng.random() < 0.5:
+                grids.append(dict(grids[-2], seed=rng.randrange(2 ** 31)))   # and the first one once more
     return grids
 
 
@@ -123,6 +154,14 @@ def oracle_grid(g, r):
     if r["exc"]:
         if not out_of_domain(g):
             fail("constructor raised %s" % r["exc"], torus=False)
+        return fails
+    cps = g.get("cps", ns)
+    if list(ns) != [cps[k] if k < len(cps) else cps[0] for k in range(dim)]:
+        fail("replay grid inconsistent: ns is not cps padded with its first entry", torus=False)
+        return fails
+    if r.get("cells_per_side") is not None and list(r["cells_per_side"]) != list(ns):
+        fail("cells_per_side %r was padded to %r, expected %r (first entry reused)" % (cps, r["cells_per_side"], ns),
+             torus=False)
         return fails
     cells = r["cells"]
     ncell = prod(ns)
@@ -155,6 +194,14 @@ def oracle_grid(g, r):
         if mx[n - 1] != math.nextafter(L, -math.inf):
             fail("direction %d (L=%r, n=%d): last cell_max %r is not the largest float below L: the grid does not "
                  "cover [0, L)" % (k, L, n, mx[n - 1]), torus=False)
+        if L >= 2.0 ** -1000:
+            # cells have the width L[k] / n[k] of THEIR direction: boundary i sits at i * L / n up to rounding
+            for i in range(1, n):
+                if abs(Fr(mn[i]) - Fr(L) * i / n) > Fr(L) * Fr(1, 2 ** 50):
+                    fail("direction %d (L=%r, n=%d): cell %d starts at %r, not at i*L/n = %r (cell side must be "
+                         "L[d] / n[d] with n padded from the first entry)" % (k, L, n, i, mn[i], L * i / n),
+                         torus=False)
+                    break
         for i in range(n):
             if not mn[i] < mx[i]:
                 fail("direction %d: cell %d has cell_min >= cell_max" % (k, i), torus=False)
@@ -324,15 +371,17 @@ def grid_terms(gi, g, r, seen):
 
 
 def run_impl(ctx, grids):
-    nchunk = max(1, min(C.NCPU, len(grids)))
-    chunks = [grids[i::nchunk] for i in range(nchunk)]
+    # consecutive grids are built one after the other in the same driver process (several systems per process,
+    # in generated order), so that state shared between instances is exercised
+    nchunk = max(1, min(2 * C.NCPU, -(-len(grids) // 4)))
+    size = -(-len(grids) // nchunk)
+    chunks = [grids[i:i + size] for i in range(0, len(grids), size)]
     payloads = [{"grids": ch} for ch in chunks]
     payloads[0]["next"] = [f2b(x) for x in NEXT_POOL]
     outs = C.run_driver_parallel(ctx, "c16_cells", payloads)
-    res = [None] * len(grids)
-    for ci, o in enumerate(outs):
-        for j, r in enumerate(o["grids"]):
-            res[ci + j * nchunk] = r
+    res = []
+    for o in outs:
+        res += o["grids"]
     return res, outs[0]["next"]
 
 
@@ -408,6 +457,10 @@ def run(ctx, grids_override=None):
         dist["layers"][g["layers"]] = dist["layers"].get(g["layers"], 0) + 1
         dist["cubic"] += int(len(set(g["lengths"])) == 1 and d > 1)
         dist["unequal_counts"] += int(len(set(g["ns"])) > 1)
+        dist["cells_per_side_shorter_than_dimension"] = dist.get("cells_per_side_shorter_than_dimension", 0) + \
+            int(len(g.get("cps", g["ns"])) < d)
+        dist["padded_on_non_cubic_box"] = dist.get("padded_on_non_cubic_box", 0) + \
+            int(len(g.get("cps", g["ns"])) < d and len(set(g["lengths"])) > 1)
         dist["constructor_rejected_out_of_domain"] += int(bool(r["exc"]))
     distinct = len({(tuple(g["lengths"]), tuple(g["ns"]), g["layers"], g["periodic"]) for g in grids})
     C.write_evidence(ctx, {
